@@ -15,6 +15,9 @@ pub struct StageDiff {
     pub witness: String,
     pub to_accepts: bool,
     pub known: Option<&'static str>,
+    /// false when the self-check fallback rebuilt the result from an earlier stage, so this stage's
+    /// language change did not reach the output
+    pub on_path: bool,
     pub from_pat: String,
     pub to_pat: String,
 }
@@ -29,11 +32,11 @@ pub struct StageReport {
 }
 
 impl StageReport {
-    pub fn all_known(&self) -> bool {
-        !self.diffs.is_empty() && self.inconclusive.is_empty() && self.invalid.is_empty() && !self.missing_events && self.diffs.iter().all(|d| d.known.is_some())
+    pub fn clean(&self) -> bool {
+        self.inconclusive.is_empty() && self.invalid.is_empty() && !self.missing_events
     }
     pub fn known_ids(&self) -> Vec<&'static str> {
-        let mut v: Vec<&'static str> = self.diffs.iter().filter_map(|d| d.known).collect();
+        let mut v: Vec<&'static str> = self.diffs.iter().filter(|d| d.on_path).filter_map(|d| d.known).collect();
         v.sort();
         v.dedup();
         v
@@ -41,7 +44,7 @@ impl StageReport {
     pub fn summary(&self) -> String {
         self.diffs
             .iter()
-            .map(|d| format!("{}->{}:{}{:?}{}", d.from, d.to, if d.to_accepts { "+" } else { "-" }, d.witness, d.known.map(|k| format!("[{k}]")).unwrap_or_default()))
+            .map(|d| format!("{}->{}:{}{:?}{}{}", d.from, d.to, if d.to_accepts { "+" } else { "-" }, d.witness, d.known.map(|k| format!("[{k}]")).unwrap_or_default(), if d.on_path { "" } else { "(bypassed)" }))
             .collect::<Vec<_>>()
             .join(" ")
     }
@@ -86,8 +89,15 @@ pub fn analyse(t: &Trace, s: Settings, out: &str, spec_pat: &str) -> StageReport
             }
         }
     };
-    let push = |r: &mut StageReport, from, to, w: (String, bool), known, a: &str, b: &str| {
-        r.diffs.push(StageDiff { from, to, witness: w.0, to_accepts: w.1, known, from_pat: a.to_string(), to_pat: b.to_string() });
+    let alt = t.branches.contains(&"alternation");
+    let unmin = t.branches.contains(&"unminimized");
+    let push = |r: &mut StageReport, from: &'static str, to: &'static str, w: (String, bool), known, a: &str, b: &str| {
+        let on_path = match to {
+            "trie" => !alt,
+            "min" | "expr" => !alt && !unmin,
+            _ => true,
+        };
+        r.diffs.push(StageDiff { from, to, witness: w.0, to_accepts: w.1, known, on_path, from_pat: a.to_string(), to_pat: b.to_string() });
     };
 
     // spec -> clusters (case conversion, sorting, grapheme splitting, class conversion, repetition detection)
